@@ -384,12 +384,19 @@ func (jenny RawTypes) fromJSONForTypeRec(context languages.Context, typeDef ast.
 			return fromJSONCode{DecodingCall: inputVar}
 		}
 
+		// maps of maps: each nested comprehension needs its own variable, or the
+		// inner one shadows the key used to reach the map it iterates on.
+		keyVar := "key"
+		if depth := strings.Count(inputVar, "[key"); depth != 0 {
+			keyVar = fmt.Sprintf("key%d", depth+1)
+		}
+
 		valueType := typeDef.Map.ValueType
-		valueTypeFromJSON := jenny.fromJSONForTypeRec(context, valueType, inputVar+"[key]", hint+"_map", unfolding)
+		valueTypeFromJSON := jenny.fromJSONForTypeRec(context, valueType, inputVar+"["+keyVar+"]", hint+"_map", unfolding)
 
 		return fromJSONCode{
 			Setup:        valueTypeFromJSON.Setup,
-			DecodingCall: fmt.Sprintf(`{key: %[2]s for key in %[1]s.keys()}`, inputVar, valueTypeFromJSON.DecodingCall),
+			DecodingCall: fmt.Sprintf(`{%[3]s: %[2]s for %[3]s in %[1]s.keys()}`, inputVar, valueTypeFromJSON.DecodingCall, keyVar),
 		}
 	} else if typeDef.IsDisjunction() {
 		return jenny.disjunctionFromJSON(context, typeDef, inputVar, hint+"_union")
